@@ -82,6 +82,7 @@ structure Ctx where
   nextTag : Nat                  -- ghost
   arms : List (List Byte)        -- ghost: bytes given to arm number `tag`
   log : List Sent                -- transport calls so far
+  lost : List Nat := []          -- ghost: tags of requests dropped without a transport call (transport detached)
   deriving Repr, DecidableEq
 
 /-- `mpt_reply_deferrable(len, send, ptr)`; `none` = NULL (`len > UINT16_MAX`) -/
@@ -95,25 +96,30 @@ structure SendRes where
   ret : Int
   rd : Option Req
   call : Option Sent
+  dropped : Option Nat := none      -- ghost: tag of a request discarded because `reply.send == 0`
   deriving Repr, DecidableEq
 
 /-- `contextSend(ctx, rd, msg)`; `ans` is what the transport's send function returns if it is called -/
 def contextSend (send ptr : Bool) (rd : Option Req) (msg : Option (List Byte)) (ans : Int) : SendRes :=
   match rd with
-  | none => ⟨Err.BadArgument.code, none, none⟩          -- "reply already sent"
+  | none => ⟨Err.BadArgument.code, none, none, none⟩    -- "reply already sent"
   | some r =>
-    if !send then ⟨0, none, none⟩                        -- rd->len = 0
-    else if !ptr then ⟨0, some r, none⟩                  -- "no reply target available"
-    else if ans ≥ 0 then ⟨ans, none, some ⟨r.tag, mark r.val, msg, true⟩⟩
-    else ⟨ans, some { r with val := unmark (mark r.val) }, some ⟨r.tag, mark r.val, msg, false⟩⟩
+    if !send then ⟨0, none, none, some r.tag⟩            -- rd->len = 0
+    else if !ptr then ⟨0, some r, none, none⟩            -- "no reply target available"
+    else if ans ≥ 0 then ⟨ans, none, some ⟨r.tag, mark r.val, msg, true⟩, none⟩
+    else ⟨ans, some { r with val := unmark (mark r.val) }, some ⟨r.tag, mark r.val, msg, false⟩, none⟩
 
 def addCall (log : List Sent) : Option Sent → List Sent
   | none => log
   | some e => log ++ [e]
+def addLost (lost : List Nat) : Option Nat → List Nat
+  | none => lost
+  | some t => lost ++ [t]
 
 /-- `convert(TypeReplyDataPtr)` + `mpt_reply_set(rd, len, data)`: return code and context -/
 def arm (c : Ctx) (bytes : List Byte) : Int × Ctx :=
-  if bytes.length > c.max then (Err.BadValue.code, c)
+  if c.cur.isSome then (Err.BadOperation.code, c)      -- fix affcd55: an unanswered request is not overwritten
+  else if bytes.length > c.max then (Err.BadValue.code, c)
   else ((c.max - bytes.length : Nat),
         { c with cur := if bytes.length = 0 then none else some ⟨bytes, c.nextTag⟩,
                  nextTag := c.nextTag + 1, arms := c.arms ++ [bytes] })
@@ -121,7 +127,7 @@ def arm (c : Ctx) (bytes : List Byte) : Int × Ctx :=
 /-- `contextSet` = `rc->reply(rc, msg)` -/
 def reply (c : Ctx) (msg : Option (List Byte)) (ans : Int) : Int × Ctx :=
   let r := contextSend c.send c.ptr c.cur msg ans
-  (r.ret, { c with cur := r.rd, log := addCall c.log r.call })
+  (r.ret, { c with cur := r.rd, log := addCall c.log r.call, lost := addLost c.lost r.dropped })
 
 /-- `contextDefer` = `rc->defer(rc)`: index of the new handle, `none` = NULL -/
 def defer (c : Ctx) : Option Nat × Ctx :=
@@ -138,19 +144,20 @@ def dreply (c : Ctx) (k : Nat) (msg : Option (List Byte)) (ans : Int) : Int × C
   | some rq =>
     let r := contextSend c.send c.ptr (some rq) msg ans
     if r.ret < 0 ∧ msg.isSome then
-      (r.ret, { c with handles := c.handles.set k r.rd, log := addCall c.log r.call })
+      (r.ret, { c with handles := c.handles.set k r.rd, log := addCall c.log r.call, lost := addLost c.lost r.dropped })
     else
       -- contextDetach(base); free(def)
       ((if r.ret < 0 then 0 else r.ret),
-       { c with handles := c.handles.set k none, refs := c.refs - 1, log := addCall c.log r.call })
+       { c with handles := c.handles.set k none, refs := c.refs - 1, log := addCall c.log r.call,
+                lost := addLost c.lost r.dropped })
 
 /-- `contextUnref` = the owner releases the context.  With other references left the transport is
     detached (`reply.send = 0`) after the pending request got its default reply; with the last
     reference the default reply is sent and the context freed. -/
 def dropCtx (c : Ctx) (ans : Int) : Ctx :=
-  let r := if c.send ∧ c.cur.isSome then contextSend c.send c.ptr c.cur none ans else ⟨0, c.cur, none⟩
+  let r := if c.send ∧ c.cur.isSome then contextSend c.send c.ptr c.cur none ans else ⟨0, c.cur, none, none⟩
   { c with owner := false, refs := c.refs - 1, send := if c.refs - 1 ≠ 0 then false else c.send,
-           cur := r.rd, log := addCall c.log r.call }
+           cur := r.rd, log := addCall c.log r.call, lost := addLost c.lost r.dropped }
 
 /-- an operation on the context together with the transport's answer, should it be asked -/
 inductive Op where
@@ -406,6 +413,29 @@ def abort (s : St) : Option Call :=
 
 /-- destruction: every handler still waiting is called with a NULL message (`~command`) -/
 def close (s : St) : List Call := (active (s.arr.getD [])).map fun e => ⟨e.tag, none⟩
+
+/-- operations of a requester history: what the application does and what the peer sends -/
+inductive ROp where
+  | await (tag : Nat)
+  | send (data : List Byte)
+  | answer (frames : List (List Byte))     -- peer frames arrive, then dispatch until drained
+  | sync (frames : List (List Byte))       -- peer frames arrive, then `sync`
+  deriving Repr, DecidableEq
+
+def rstep (s : St) : ROp → St × List Call
+  | .await tag => match await s tag with
+    | some (s', _) => (s', [])
+    | none => (s, [])
+  | .send d => ((send s d).1, [])
+  | .answer fs => drain (s.inq ++ fs) s []
+  | .sync fs => sync { s with inq := s.inq ++ fs }
+
+def rrun : St → List ROp → St × List Call
+  | s, [] => (s, [])
+  | s, op :: ops =>
+    let r := rstep s op
+    let r2 := rrun r.1 ops
+    (r2.1, r.2 ++ r2.2)
 
 end Requester
 end Mpt
